@@ -10,7 +10,7 @@
    is what the correspondence stage compares bit for bit with CPython. *)
 From Coq Require Import List ZArith Bool QArith Qcanon.
 From Coq Require Import Reals.
-From RxVerif Require Import Math.Exact Math.ExactProofs Math.FloatModel Math.C12Corr Math.SumErrorProofs Math.SumRunningProofs Math.MeanErrorProofs Math.MinMaxFloatProofs Math.FloatOpsProofs Math.VarianceFloatProofs Math.VarianceNonnegProofs Math.WelfordReal Math.WelfordErrorProofs Math.StddevErrorProofs Math.PySumErrorProofs Math.FormalVarianceErrorProofs.
+From RxVerif Require Import Math.Exact Math.ExactProofs Math.FloatModel Math.C12Corr Math.SumErrorProofs Math.SumRunningProofs Math.MeanErrorProofs Math.MinMaxFloatProofs Math.FloatOpsProofs Math.VarianceFloatProofs Math.VarianceNonnegProofs Math.WelfordReal Math.WelfordErrorProofs Math.StddevErrorProofs Math.PySumErrorProofs Math.FormalVarianceErrorProofs Math.MixedItemsProofs.
 Import ListNotations.
 Open Scope Qc_scope.
 
@@ -410,6 +410,56 @@ Example C12_float_formal_hypotheses_hold :
   fstd_fin [] [f_of_Z 1; f_of_Z 2; f_of_Z 4; Coq.Floats.FloatOps.Z.ldexp (f_of_Z 3602879701896397) (-55)] = true.
 Proof. vm_compute. reflexivity. Qed.
 
+(* (j) int items mixed with floats: under the model's assumption on int magnitudes (|int| < 2^53, also for the int partial sums
+       of mean's leading int run and for the difference of the first two items of a variance run), a run on a mixed list follows,
+       BIT FOR BIT, the run on the floats obtained by converting every int (float(int) is exact there, int + int and int - int
+       agree with the float operations, signed zeros included).  sum needs no condition at all (its seed is the float 0.0).
+       Hence the binary64 bounds above hold for mixed lists (stated for the reduce values; the streaming ones follow the same
+       way).  The two-pass formal.variance is NOT covered: CPython's builtin sum adds an int item uncompensated after the first
+       float, so converting the ints changes the algorithm. *)
+Theorem C12_mixed_items_sum : forall (h : hints) (reduce : bool) (l : list num),
+  sum_run (FA h) reduce l = sum_run (FA h) reduce (map to_fl l).
+Proof. exact mixed_sum_run. Qed.
+Print Assumptions C12_mixed_items_sum.
+Theorem C12_mixed_items_mean : forall (h : hints) (reduce : bool) (l : list num), int_prefix_ok 0 l ->
+  mean_run (FA h) reduce l = mean_run (FA h) reduce (map to_fl l).
+Proof. exact mixed_mean_run. Qed.
+Print Assumptions C12_mixed_items_mean.
+Theorem C12_mixed_items_min_max : forall (h : hints) (reduce : bool) (l : list num), Forall small_num l ->
+  Forall2 oveq (min_run (FA h) reduce l) (min_run (FA h) reduce (map to_fl l))
+  /\ Forall2 oveq (max_run (FA h) reduce l) (max_run (FA h) reduce (map to_fl l)).
+Proof. exact (fun h r l H => conj (mixed_min_run h r l H) (mixed_max_run h r l H)). Qed.
+Print Assumptions C12_mixed_items_min_max.
+Theorem C12_mixed_items_variance_stddev : forall (h : hints) (reduce : bool) (l : list num), var_side l ->
+  variance_run (FA h) reduce l = variance_run (FA h) reduce (map to_fl l)
+  /\ stddev_run (FA h) reduce l = stddev_run (FA h) reduce (map to_fl l).
+Proof. exact (fun h r l H => conj (mixed_variance_run h r l H) (mixed_stddev_run h r l H)). Qed.
+Print Assumptions C12_mixed_items_variance_stddev.
+Theorem C12_mixed_items_mean_error_bound : forall (h : hints) (l : list num),
+  l <> [] -> (Z.of_nat (length l) < 2 ^ 53)%Z -> int_prefix_ok 0 l ->
+  Forall (fun x => Coq.Floats.PrimFloat.is_finite x = true) (map to_f l) ->
+  Forall (fun x => Coq.Floats.PrimFloat.is_finite x = true) (scan_states Coq.Floats.PrimFloat.add Coq.Floats.PrimFloat.zero (map to_f l)) ->
+  Coq.Floats.PrimFloat.is_finite (Coq.Floats.PrimFloat.div (fold_left Coq.Floats.PrimFloat.add (map to_f l) Coq.Floats.PrimFloat.zero)
+                                                            (f_of_Z (Z.of_nat (length l)))) = true ->
+  exists m, mean_run (FA h) true l = [Some (NF m)]
+            /\ (Rabs (FR m - sumR (map FR (map to_f l)) / INR (length l))
+                <= ((1 + u53) ^ S (length l) - 1)
+                   * (sumR (map (fun x => Rabs (FR x)) (map to_f l)) / INR (length l)) + eta64)%R.
+Proof. exact mixed_mean_error. Qed.
+Print Assumptions C12_mixed_items_mean_error_bound.
+Theorem C12_mixed_items_variance_error_bound : forall (h : hints) (l : list num) (lo hi A Rr : R),
+  (- A <= lo)%R -> (hi <= A)%R -> (hi - lo <= Rr)%R -> l <> [] -> var_side l ->
+  Forall (fun x => Coq.Floats.PrimFloat.is_finite x = true) (map to_f l) -> Forall (fun x => (lo <= FR x <= hi)%R) (map to_f l) ->
+  (Z.of_nat (length l) < 2 ^ 53)%Z ->
+  Forall state_fin (scan_states (wstep (FA h)) (wseed (FA h)) (map to_fl l)) ->
+  exists f, variance_run (FA h) true l = [NF f] /\ Coq.Floats.PrimFloat.is_finite f = true /\ (0 <= FR f)%R /\
+    ((2 <= length l)%nat ->
+     (Rabs (FR f - ssdR (map FR (map to_f l)) / INR (length l - 1))
+      <= wFb A Rr (map FR (map to_f l)) (length l) / INR (length l - 1) * (1 + u53)
+         + u53 * (ssdR (map FR (map to_f l)) / INR (length l - 1)) + eta64)%R).
+Proof. exact mixed_variance_reduce_error. Qed.
+Print Assumptions C12_mixed_items_variance_error_bound.
+
 Theorem C12_float_unit_roundoff : u53 = (/ 2 ^ 53)%R.
 Proof. exact u53_value. Qed.
 Print Assumptions C12_float_unit_roundoff.
@@ -424,10 +474,11 @@ Print Assumptions C12_float_unit_roundoff.
    and for `stddev` (the C12_float_stddev_error_bound theorems).
    and for the two-pass formal.variance / formal.stddev, CPython's compensated builtin sum included
    (C12_float_builtin_sum_error_bound and the C12_float_formal theorems).
-   NOT PROVED: int items mixed with floats (ints are exact in the exact-arithmetic theorems; in the binary64 theorems the
-   items are floats); for those the binary64 half is tied bit-exactly to the code and its error is measured against
-   exact rationals by the oracle.  The bounds are a-priori bounds in terms of u, n, the range and the magnitude of the
-   data (the conditioning), not the sharpest known constants. *)
+   Int items mixed with floats reduce bit for bit to the float runs for sum, mean, min, max, variance and stddev (the
+   C12_mixed_items theorems).  NOT PROVED: the two-pass formal.variance on lists that mix ints and floats (CPython's builtin
+   sum treats an int item after the first float differently from a float item); there the binary64 half is tied bit-exactly
+   to the code and its error is measured against exact rationals by the oracle.  The bounds are a-priori bounds in terms of
+   u, n, the range and the magnitude of the data (the conditioning), not the sharpest known constants. *)
 Theorem C12_partial : forall (sq : Qc -> Qc) (xs : list Qc),
   sum_run (QA sq) true xs = [qsum xs]
   /\ variance_run (QA sq) true xs = [sample_var xs]
